@@ -127,6 +127,20 @@ def gen_frame(rng, head="F:0:%d" % NOLIM, big_ok=True):
     return head + "|" + ";".join(interleave(rng, qs, rng.choice([0, 2, 4, 8, 12]), tail))
 
 
+def deflate_table(enc, bodies):
+    """what ZLibCodec::Deflate(dependent) will produce for the bodies that get compressed (header+body >= 32
+    bytes), in queue order: one zlib stream per gateway, Z_SYNC_FLUSH after every Message"""
+    import zlib
+    if enc == 0:
+        return []
+    c = zlib.compressobj(enc)
+    out = []
+    for b in bodies:
+        if len(b) + 8 >= 32:
+            out.append(c.compress(b) + c.flush(zlib.Z_SYNC_FLUSH))
+    return out
+
+
 def gen_codec_oracle(rng, kind, enc):
     """oracle-only stream for the encodings / gateways not (yet) modelled: big (compressed, deflate state
     carried over) and tiny (sent with a DEFAULT header, codec untouched) Messages mixed, repeated bodies
@@ -145,7 +159,31 @@ def gen_codec_oracle(rng, kind, enc):
             bodies.append(rand_body(rng, rng.random() < 0.1))
     qs = ["q:" + hexs(b) for b in bodies]
     tail = drain(rng, 3, rng.choice([0, 0, 0, 25]))
-    return "%s:%d:%d|" % (kind, enc, NOLIM) + ";".join(interleave(rng, qs, rng.choice([0, 2, 4, 8]), tail))
+    tbl = ",".join(hexs(d) for d in deflate_table(enc, bodies)) if kind == "F" else ""
+    return "%s:%d:%d:%s|" % (kind, enc, NOLIM, tbl) + ";".join(interleave(rng, qs, rng.choice([0, 2, 4, 8]), tail))
+
+
+def gen_packet_oracle(rng, kind):
+    """oracle-only: the same gateway classes over a packet-style (UDP-like) DataIO: one packet per Message,
+    a script entry 0 = would-block, >0 = the packet moves"""
+    if kind == "F":
+        head = "KF:0:%d" % NOLIM
+        qs = ["q:" + hexs(rand_body(rng, False)) for _ in range(rng.choice([1, 2, 3, 5]))]
+    elif kind == "T":
+        head = "KT:%s" % rng.choice(["0d0a", "0d", "0a"])
+        qs = ["q:" + ",".join(hexs(rand_line(rng)) for _ in range(rng.choice([1, 2, 3]))) for _ in range(rng.choice([1, 2, 3]))]
+    else:
+        head = "KR:0:%d" % NOLIM
+        qs = ["q:" + hexs(rand_chunk(rng)) for _ in range(rng.choice([1, 2, 3, 5]))]
+    ops = []
+    for q in qs:
+        ops.append(q)
+        if rng.random() < 0.5:
+            ops.append("o:%d:%s" % (NOLIM, ",".join(str(rng.choice([0, 1, 1])) for _ in range(3))))
+        if rng.random() < 0.5:
+            ops.append("i:%d:%s" % (NOLIM, ",".join(str(rng.choice([0, 1, 1])) for _ in range(3))))
+    ops += ["o:%d:%s" % (NOLIM, ",".join(["1"] * 12)), "i:%d:%s" % (NOLIM, ",".join(["1"] * 12))]
+    return head + "|" + ";".join(ops)
 
 
 def le32(n):
@@ -270,7 +308,10 @@ def directed():
     for enc in range(1, 10):
         for kind in "FP":
             for scr in (ALL, ",".join(["7"] * 400)):
-                out.append("%s:%d:%s|q:%s;q:%s;q:%s;q:%s;q:%s;o:%s:%s;i:%s:%s;o:%s:%s;i:%s:%s" % (kind, enc, ALL, hexs(big1), hexs(b12), hexs(big1), hexs(b12), hexs(big1), ALL, scr, ALL, scr, ALL, scr, ALL, scr))
+                tbl = ",".join(hexs(d) for d in deflate_table(enc, [big1, b12, big1, b12, big1])) if kind == "F" else ""
+                out.append("%s:%d:%s:%s|q:%s;q:%s;q:%s;q:%s;q:%s;o:%s:%s;i:%s:%s;o:%s:%s;i:%s:%s" % (kind, enc, ALL, tbl, hexs(big1), hexs(b12), hexs(big1), hexs(b12), hexs(big1), ALL, scr, ALL, scr, ALL, scr, ALL, scr))
+    # packet mode: one text Message, two lines, sent as one packet (PlainTextMessageIOGateway.cpp 28-68)
+    out.append("KT:0d0a|q:6162,63;o:%s:1,1;i:%s:1,1" % (ALL, ALL))
     # maxIncoming exactly at / below the body size
     for lim in (11, 12, 13):
         out.append("F:0:%d|q:%s;o:%s:%s;i:%s:%s;i:%s:%s" % (lim, hexs(b12), ALL, ALL, ALL, ALL + "," + ALL + "," + ALL, ALL, ALL))
@@ -336,8 +377,11 @@ class CHECK(vlib.Check):
         for enc in range(0, 10):
             for j in range(m):
                 if enc > 0:
-                    out.append(("zlib-oracle", gen_codec_oracle(rng, "F", enc)))
+                    out.append(("zlib", gen_codec_oracle(rng, "F", enc)))
                 out.append(("templating-oracle", gen_codec_oracle(rng, "P", enc)))
+        for j in range(6 if tier == "quick" else 40):
+            for kind in "FTR":
+                out.append(("packet-oracle", gen_packet_oracle(rng, kind)))
         out += [("directed", c) for c in directed()]
         return out
 
